@@ -67,6 +67,10 @@ pub const ORIGINS: &[&str] = &[
     "http://svc@u2.test:8080/",
     "http://svc@u1.test:9090/",
     "https://svc:pw@u2.test/",
+    // a fully qualified name (trailing dot) is another authority than the relative name
+    "http://dot.test/",
+    "http://dot.test./",
+    "https://dot.test./",
 ];
 
 pub const NEAR_MISS_FROM: usize = 6;
@@ -151,6 +155,10 @@ pub struct ConnT {
     /// the protocol version the connection reports (HTTP/2 when asked for or negotiated) - shareable
     /// or not is a separate matter (`PoolCfg.single_use`)
     pub h2: bool,
+    /// when the last handle was dropped while the connection was open: how many other open, unheld,
+    /// single-use connections of its origin were alive at that moment (an upper bound of the open
+    /// entries in the origin's idle list)
+    pub drop_peers: Option<usize>,
     pub shareable: bool,
     pub open: bool,
     pub ready: bool,
@@ -556,6 +564,7 @@ impl Future for HandshakeFuture {
                     okey,
                     dial: did,
                     h2: is_h2,
+                    drop_peers: None,
                     shareable,
                     open: true,
                     ready: true,
@@ -648,6 +657,12 @@ impl Drop for HConn {
         let h = w.conns[id].handles;
         if h == 0 {
             w.conns[id].sure_idle = false;
+            if w.conns[id].open {
+                let okey = w.conns[id].okey.clone();
+                // (a shareable connection occupies an idle slot with the pool's own handle for as long as it lives)
+                let peers = w.conns.iter().enumerate().filter(|(i, c)| *i != id && c.okey == okey && c.open && c.handles >= 1 && (c.shareable || c.holders.is_empty())).count();
+                w.conns[id].drop_peers = Some(peers);
+            }
         }
         let a = w.actor();
         w.log(|| format!("conn#{id} handle dropped (left {h}) during {a:?}"));
@@ -2078,7 +2093,9 @@ fn check_abandoned_dials(w: &mut World) {
                     if let Some(c) = dd.conn {
                         let cc = &w.conns[c];
                         let was_bg = matches!(cc.created_by, Actor::Bg);
-                        if was_bg && cc.handles == 0 && cc.open && cc.handoffs == 0 && w.cfg.max_idle >= 16 {
+                        // (with a small idle limit: dropped although fewer open idle connections than the limit existed)
+                        let had_room = w.cfg.max_idle >= 16 || cc.drop_peers.map(|p| p < w.cfg.max_idle).unwrap_or(false);
+                        if was_bg && cc.handles == 0 && cc.open && cc.handoffs == 0 && had_room {
                             let msg = format!(
                                 "continue_after_preemption=true: connection #{c} from abandoned dial #{d} completed in the background but was not kept (no live handle, never used)"
                             );
@@ -2305,6 +2322,65 @@ pub fn case_strategy(
     (cfgs, proptest::collection::vec(op_strategy(wt), 0..max_ops)).prop_map(|(cfg, ops)| PoolCase { cfg, ops })
 }
 
+/// Mutational search around known deep histories: a seed history from the corpus
+/// (`/verif/replays/corpus/poolsim/*.json`: minimal histories of defects that were found - or seeded -
+/// deep in the state space) receives 0-5 random edits (delete, duplicate, swap with the neighbour, insert
+/// a generated operation, replace by one) and, now and then, another pool configuration. The seeds put
+/// the search next to states that random histories reach once in a million cases.
+pub fn corpus_mutation_strategy(seeds: Vec<PoolCase>, wt: Weights) -> impl Strategy<Value = PoolCase> {
+    let n = seeds.len().max(1);
+    let seeds = std::sync::Arc::new(seeds);
+    (
+        0..n,
+        proptest::collection::vec((0u8..5, any::<u16>(), op_strategy(wt)), 0..=5),
+        prop_oneof![3 => Just(None), 1 => cfg_any_strategy().prop_map(Some)],
+    )
+        .prop_map(move |(i, edits, cfg)| {
+            let mut case = seeds.get(i).cloned().unwrap_or(PoolCase { cfg: PoolCfg { idle_timeout_ms: None, max_idle: 32, cont: true, req_timeout_ms: None, open_is_ready: true, caller_host: 0, single_use: false }, ops: vec![] });
+            for (kind, pos, op) in edits {
+                let len = case.ops.len();
+                let at = if len == 0 { 0 } else { pos as usize * len >> 16 };
+                match kind {
+                    0 if len > 0 => {
+                        case.ops.remove(at);
+                    }
+                    1 if len > 0 => {
+                        let o = case.ops[at].clone();
+                        case.ops.insert(at, o);
+                    }
+                    2 if len > 1 && at + 1 < len => case.ops.swap(at, at + 1),
+                    3 => case.ops.insert(at.min(len), op),
+                    _ if len > 0 => case.ops[at] = op,
+                    _ => case.ops.push(op),
+                }
+            }
+            if let Some(cfg) = cfg {
+                case.cfg = cfg;
+            }
+            case
+        })
+}
+
+/// The seed histories of the mutation leg (every poolsim case under replays/corpus/poolsim and replays/regress).
+pub fn load_corpus() -> Vec<PoolCase> {
+    let mut out = vec![];
+    for dir in ["replays/corpus/poolsim", "replays/regress"] {
+        let d = std::path::Path::new(crate::common::VERIF_DIR).join(dir);
+        let mut files: Vec<std::path::PathBuf> = std::fs::read_dir(d).map(|rd| rd.filter_map(|e| e.ok()).map(|e| e.path()).filter(|p| p.extension().map(|x| x == "json").unwrap_or(false)).collect()).unwrap_or_default();
+        files.sort();
+        for f in files {
+            if let Ok(rf) = crate::common::read_replay(&f) {
+                if rf.engine == "poolsim" {
+                    if let Ok(c) = serde_json::from_value::<PoolCase>(rf.case) {
+                        out.push(c);
+                    }
+                }
+            }
+        }
+    }
+    out
+}
+
 pub fn cfg_plain_strategy() -> impl Strategy<Value = PoolCfg> {
     (prop_oneof![Just(None), Just(Some(3_600_000u64))], any::<bool>(), prop_oneof![2 => Just(true), 1 => Just(false)]).prop_map(|(t, cont, open_is_ready)| PoolCfg {
         idle_timeout_ms: t,
@@ -2483,13 +2559,21 @@ pub fn near_origins_strategy(wt: Weights, max_ops: usize) -> impl Strategy<Value
         let wt = Weights { origins: k as u8, ..wt };
         (
             proptest::collection::vec(0u16..=u16::MAX, k),
-            any::<bool>(),
+            0u8..7,
             cfg_any_strategy(),
             proptest::collection::vec(op_strategy(wt), 0..max_ops),
         )
             .prop_map(move |(picks, family, cfg, ops)| {
-                // `family`: stay within the entries about a.test (base table 0..3 plus near misses 6..12)
-                let pool: Vec<u8> = if family { vec![0, 1, 2, 4, 6, 7, 8, 9, 10, 11, 18, 19, 20, 21, 22, 23, 24] } else { (0..ORIGINS.len() as u8).collect() };
+                // `family`: stay within one cluster of related entries - the ones about a.test (base table plus
+                // near misses), the ones with user information, the trailing-dot ones, the IP literals - or
+                // draw from the whole table
+                let pool: Vec<u8> = match family {
+                    0 | 1 => vec![0, 1, 2, 4, 6, 7, 8, 9, 10, 11, 18, 19, 20, 21, 22, 23, 24],
+                    2 => vec![25, 26, 27, 28],
+                    3 => vec![29, 30, 31],
+                    4 => vec![12, 13, 14, 15, 16],
+                    _ => (0..ORIGINS.len() as u8).collect(),
+                };
                 let chosen: Vec<u8> = picks.iter().map(|r| pool[idx(*r, pool.len()).unwrap_or(0)]).collect();
                 let ops = ops
                     .into_iter()
